@@ -1,4 +1,4 @@
-"""C04, template part: program generator, serialiser, model driver, ties (a) parse / (b) Expander vs eval /
+"""C04, template part: program generator (incl. '=' in text leaves), serialiser, model driver, ties (a) parse / (b) Expander vs eval /
 (b') Expander vs flatten model, and the monitor (reference semantics = the extracted Coq `eval`).
 Runs in the checker process: must not import mwlib."""
 import concurrent.futures
@@ -20,10 +20,32 @@ TNAMES = ["t1", "t2", "t3", "t4"]
 # ast (python): ("t", s) | ("p", name, body|None) | ("c", name, [(None|key, body)]) | ("i", c, t, e|None)
 #             | ("q", a, b, t, e|None) | ("w", scrut, [(keys, lastkey, value)], None | (True|False, body))
 
-def gen_text(rng):
+# '=' inside TEXT.  In MediaWiki an equals sign is syntax only at the top level of an argument of a TEMPLATE CALL (first '=':
+# name=value) and of a #switch case (first '=': key=value); everywhere else - branches and conditions of #if/#ifeq, parameter
+# defaults, page and template text, the value part of a named argument or of a #switch case - it is ordinary result text, kept
+# with the blanks around it.  EQ_P is the probability that a text leaf generated in such a context contains '='.
+EQ_P = 0.15
+EQ_SEPS = [" = ", "=", " =", "= ", "  =  ", " != ", "\n=\n", " = = ", "=="]
+
+
+def gen_text(rng, eq=False):
     core_ = rng.choice(NUMS) if rng.random() < 0.45 else rng.choice(WORDS)
     if rng.random() < 0.15:
         core_ = core_ + " " + rng.choice(WORDS)
+    if eq and rng.random() < EQ_P:
+        r = rng.random()
+        sep = rng.choice(EQ_SEPS)
+        other = rng.choice(NUMS) if rng.random() < 0.4 else rng.choice(WORDS)
+        if r < 0.6:
+            core_ = core_ + sep + other                       # "a = b"
+        elif r < 0.75:
+            core_ = core_ + sep + other + rng.choice(EQ_SEPS) + rng.choice(WORDS)    # "a = b = c"
+        elif r < 0.85:
+            core_ = sep.lstrip() + other if sep.strip() else "=" + other            # "= b": the text starts with '='
+        elif r < 0.95:
+            core_ = core_ + sep.rstrip()                      # "a =": ends with '='
+        else:
+            core_ = "="
     return rng.choice(PADS) + core_ + rng.choice(PADS)
 
 
@@ -32,19 +54,21 @@ class Budget:
     left = 0
 
 
-def gen_body(rng, depth, callable_, maxlen=3, allow_empty=True):
+def gen_body(rng, depth, callable_, maxlen=3, allow_empty=True, eq=False):
+    """eq: may the TOP-LEVEL text leaves of this body contain '=' (is the body a text context)?  Nested constructs decide for
+    their own sub-bodies."""
     n = rng.choice([0, 1, 1, 1, 2, 2, 3]) if allow_empty else rng.choice([1, 1, 2, 3])
     n = min(n, maxlen)
     res = []
     for _ in range(n):
         last_text = bool(res) and res[-1][0] == "t"
-        x = gen_ast(rng, depth, callable_, no_text=last_text)
+        x = gen_ast(rng, depth, callable_, no_text=last_text, eq=eq)
         if x is not None:
             res.append(x)
     return res
 
 
-def gen_ast(rng, depth, callable_, no_text=False):
+def gen_ast(rng, depth, callable_, no_text=False, eq=False):
     Budget.left -= 1
     kinds = ["t"] * (0 if no_text else 5)
     if depth > 0 and Budget.left > 0:
@@ -54,13 +78,13 @@ def gen_ast(rng, depth, callable_, no_text=False):
     k = rng.choice(kinds)
     d = depth - 1
     if k == "t":
-        return ("t", gen_text(rng))
+        return ("t", gen_text(rng, eq))
     if k == "p0":
         return ("p", rng.choice(PNAMES), None)
     if k == "p":
         dflt = None
         if rng.random() < 0.5:
-            dflt = gen_body(rng, d, callable_, maxlen=2)
+            dflt = gen_body(rng, d, callable_, maxlen=2, eq=True)        # a default is text
         return ("p", rng.choice(PNAMES), dflt)
     if k == "c":
         name = rng.choice(callable_)
@@ -79,7 +103,11 @@ def gen_ast(rng, depth, callable_, no_text=False):
             if key is None:
                 pos += 1
             used.add(eff)
-            args.append((key, gen_body(rng, d, callable_, maxlen=2)))
+            if key is not None and rng.random() < 0.3:       # {{t| k = v }}: name and value of a named argument are trimmed
+                key = rng.choice(PADS + [" "]) + key + rng.choice(PADS + [" "])
+            # positional: a top-level '=' would make it a named argument (that shape IS the named one above); named: the first
+            # '=' has been used, further ones are text of the value
+            args.append((key, gen_body(rng, d, callable_, maxlen=2, eq=key is not None)))
         # a later positional must not collide with an earlier explicit number
         chk = set()
         p = 0
@@ -89,31 +117,34 @@ def gen_ast(rng, depth, callable_, no_text=False):
                 p += 1
                 e = str(p)
             else:
-                e = key
+                e = key.strip()
             if e in chk:
                 ok = False
             chk.add(e)
         if not ok:
             args = [(kk, b) for kk, b in args if kk is None]
         return ("c", name, args)
-    if k == "i":
-        return ("i", gen_body(rng, d, callable_, maxlen=2), gen_body(rng, d, callable_, maxlen=2),
-                gen_body(rng, d, callable_, maxlen=2) if rng.random() < 0.7 else None)
+    if k == "i":        # condition and branches of #if / #ifeq are text: '=' has no meaning there
+        return ("i", gen_body(rng, d, callable_, maxlen=2, eq=True), gen_body(rng, d, callable_, maxlen=2, eq=True),
+                gen_body(rng, d, callable_, maxlen=2, eq=True) if rng.random() < 0.7 else None)
     if k == "q":
-        return ("q", gen_body(rng, d, callable_, maxlen=2), gen_body(rng, d, callable_, maxlen=2),
-                gen_body(rng, d, callable_, maxlen=2), gen_body(rng, d, callable_, maxlen=2) if rng.random() < 0.7 else None)
+        return ("q", gen_body(rng, d, callable_, maxlen=2, eq=True), gen_body(rng, d, callable_, maxlen=2, eq=True),
+                gen_body(rng, d, callable_, maxlen=2, eq=True),
+                gen_body(rng, d, callable_, maxlen=2, eq=True) if rng.random() < 0.7 else None)
     if k == "w":
         cases = []
         for _ in range(rng.choice([1, 2, 2, 3, 4])):
             keys = [gen_key(rng, d, callable_) for _ in range(rng.choice([0, 0, 0, 1, 2]))]
-            cases.append((keys, gen_key(rng, d, callable_), gen_body(rng, d, callable_, maxlen=2)))
+            # key=value: the first '=' of the case separates them, later ones are text of the value
+            cases.append((keys, gen_key(rng, d, callable_), gen_body(rng, d, callable_, maxlen=2, eq=True)))
         r = rng.random()
         dflt = None
         if r < 0.35:
-            dflt = (True, gen_body(rng, d, callable_, maxlen=2))
+            dflt = (True, gen_body(rng, d, callable_, maxlen=2, eq=True))
         elif r < 0.7:
             dflt = (False, gen_body(rng, d, callable_, maxlen=2, allow_empty=False))
-        return ("w", gen_key(rng, d, callable_) if rng.random() < 0.8 else gen_body(rng, d, callable_, maxlen=2), cases, dflt)
+        sc = gen_key(rng, d, callable_) if rng.random() < 0.8 else gen_body(rng, d, callable_, maxlen=2, eq=True)
+        return ("w", sc, cases, dflt)
     raise AssertionError(k)
 
 
@@ -131,16 +162,16 @@ def gen_program(rng, depth):
     for i in range(nt):
         callable_ = [n for n, _b in uni]
         Budget.left = rng.choice([4, 8, 12, 20])
-        body = gen_body(rng, rng.randint(1, depth), callable_, maxlen=3)
+        body = gen_body(rng, rng.randint(1, depth), callable_, maxlen=3, eq=True)
         uni.append((TNAMES[i], body))
     Budget.left = rng.choice([6, 10, 16, 24, 40])
-    page = gen_body(rng, depth, [n for n, _b in uni], maxlen=3, allow_empty=False)
+    page = gen_body(rng, depth, [n for n, _b in uni], maxlen=3, allow_empty=False, eq=True)
     if not any(x[0] == "c" for x in page) and rng.random() < 0.8:
         args = []
         for j in range(rng.choice([0, 1, 2, 3])):
             args.append((None, gen_body(rng, 1, [n for n, _b in uni], maxlen=2)))
         if rng.random() < 0.5:
-            args.append((rng.choice(["x", "y", "k"]), gen_body(rng, 1, [], maxlen=2)))
+            args.append((rng.choice(["x", "y", "k"]), gen_body(rng, 1, [], maxlen=2, eq=True)))
         if page and page[-1][0] == "t" and False:
             pass
         page.append(("c", uni[-1][0], args))
@@ -401,6 +432,61 @@ DIRECTED = [
 ]
 
 
+def eq_family():
+    """'=' AS TEXT, deterministically: every separator spelling of EQ_SEPS (blanks on either/both/no side, doubled, '!=',
+    on its own line) at every position where the template language defines an equals sign to be text - then/else branch and
+    condition of #if, both operands and both branches of #ifeq, parameter default, value of a named argument (after its first
+    '='), value of a #switch case and of #default, page text, template text - and, as the contrast, where it is syntax: the
+    named argument {{t1| k = v }} whose name and value are trimmed.  Each program is tiny (one construct)."""
+    T = lambda s: [("t", s)]      # noqa: E731
+    out = []
+    show = [("t1", [("t", "["), ("p", "1", None), ("t", "/"), ("p", "k", None), ("t", "]")])]
+    for sep in EQ_SEPS:
+        txt = "a" + sep + "b"
+        padded = " " + txt + " "
+        progs = [
+            [("i", T("1"), T(padded), T("no"))],
+            [("i", T(""), T("yes"), T(padded))],
+            [("i", T(padded), T("y"), T("n"))],
+            [("t", "x"), ("i", T("1"), T(padded), None), ("t", "y")],
+            [("q", T("2"), T("2.0"), T(padded), T("no"))],
+            [("q", T("2"), T("3"), T("yes"), T(padded))],
+            [("q", T(padded), T("a=b"), T("same"), T("differ"))],
+            [("q", T("a = b"), T(padded), T("same"), T("differ"))],
+            [("p", "zz", T(padded))],
+            [("c", "t1", [(None, T(" p ")), ("k", T(padded))])],
+            [("c", "t1", [(None, T(" p ")), (" k ", T(padded))])],
+            [("c", "t1", [(" 1 ", T(padded)), ("k", [("i", T("1"), T(padded), None)])])],
+            [("c", "t1", [(None, [("i", T("1"), T(padded), None)]), ("k", [("p", "zz", T(padded))])])],
+            [("w", T("b"), [([], T("a"), T("1")), ([], T(" b "), T(padded))], (True, T("3")))],
+            [("w", T("q"), [([], T("a"), T("1"))], (True, T(padded)))],
+            [("w", T(padded), [([], T("a"), T("1"))], (True, T("dflt")))],
+            [("t", padded)],
+        ]
+        for pg in progs:
+            out.append((show, pg))
+        # the same through parameters: a template whose conditional builds 'x = y' texts from its arguments
+        pair = [("t2", [("i", [("p", "1", [])], [("p", "1", None), ("t", sep), ("p", "2", T("none"))],
+                        [("t", "unset" + sep), ("p", "2", T("none"))])])]
+        for args in ([(None, T("a")), (None, T("b"))], [(None, []), (None, T("b"))], [(None, T("a"))]):
+            out.append((pair, [("c", "t2", args)]))
+        out.append((pair + [("t3", [("t", txt)])], [("c", "t3", []), ("t", " "), ("c", "t2", [(None, [("c", "t3", [])])])]))
+    return out
+
+
+def has_eq_text(b):
+    for n in b:
+        if n[0] == "t" and "=" in n[1]:
+            return True
+        if any(has_eq_text(s) for s in subs(n)):
+            return True
+    return False
+
+
+def size_of(c):
+    return len(c["page_text"]) + sum(len(t) + len(n) for n, t in c["db_text"])
+
+
 def run(run, src):
     tier = run.tier
     n_prog = 3000 if tier == "quick" else 60000
@@ -416,12 +502,16 @@ def run(run, src):
             if fn.startswith("tpl") and fn.endswith(".json"):
                 o = json.load(open(os.path.join(corpus, fn)))
                 cases.append({"id": len(cases), "uni": _tuplify(o["uni"]), "page": _tuplify(o["page"]), "directed": True})
-    while len(cases) < n_prog + len(DIRECTED):
+    for uni, page in eq_family():
+        cases.append({"id": len(cases), "uni": uni, "page": page, "directed": True, "family": "eq"})
+    n_directed = len(cases)
+    while len(cases) < n_prog + n_directed:
         uni, page = gen_program(rng, depth)
         cases.append({"id": len(cases), "uni": uni, "page": page})
     for c in cases:
         c["page_text"] = ser_body(c["page"])
         c["db_text"] = [(n, ser_body(b)) for n, b in c["uni"]]
+        c["has_eq"] = has_eq_text(c["page"]) or any(has_eq_text(b) for _n, b in c["uni"])
     # model
     p = subprocess.run([exe], input=model_lines(cases), capture_output=True, text=True, timeout=3000)
     if p.returncode != 0:
@@ -432,6 +522,7 @@ def run(run, src):
     probe = real[5]
     bare_bug = ("crash" in probe) or probe.get("exc") is not None or probe.get("out") != "dflt"
     dis_parse, dis_eval, dis_impl = [], [], []
+    sem_hits = []
     dist = {"templates": {}, "depth": {}, "kinds": {}, "outcome": {"ok": 0, "exc": 0, "crash": 0, "eval-none": 0}, "page_chars": {}}
     n_parse = 0
     for c, m in zip(cases, mres):
@@ -482,15 +573,33 @@ def run(run, src):
         # (b) monitor + tie: real output vs reference semantics
         if r["out"] != m["eval"]:
             cls = "switch-numeric-tie" if (numeric_keys_tie(c["page"]) or any(numeric_keys_tie(b) for _n, b in c["uni"])) else _h(c)
-            run.hit(BARE_FP if (bare and cls != "switch-numeric-tie") else "tpl-semantics:" + cls,
-                    "expansion differs from the template-language semantics: %r with templates %r gives %r, expected %r"
-                    % (c["page_text"], dict(c["db_text"]), r["out"], m["eval"]), replay)
+            sem_hits.append((size_of(c), c["id"], BARE_FP if (bare and cls != "switch-numeric-tie") else "tpl-semantics:" + cls,
+                             "expansion differs from the template-language semantics: %r with templates %r gives %r, expected %r"
+                             % (c["page_text"], _used_templates(c), r["out"], m["eval"]), replay))
             dis_eval.append("%r / %r: real %r eval %r" % (c["page_text"], dict(c["db_text"]), r["out"], m["eval"]))
         # (b') flatten model vs real
         if r["out"] != m["impl"]:
             dis_impl.append("%r / %r: real %r model %r" % (c["page_text"], dict(c["db_text"]), r["out"], m["impl"]))
         if len(run.samples) < 4 and dp >= 3:
             run.sample({"page": c["page_text"], "templates": dict(c["db_text"]), "expanded": r["out"]})
+    # the semantic hits, smallest programs first: the SMALLEST_HITS smallest are reported as violations of their own (one
+    # fingerprint per program), every class fingerprint (known defects) once; the number of further failing programs is said
+    sem_hits.sort(key=lambda h: (h[0], h[1]))
+    reported, seen_fp = 0, set()
+    for _sz, _id, fp, what, replay in sem_hits:
+        generic = fp.startswith("tpl-semantics:") and fp != "tpl-semantics:switch-numeric-tie"
+        if generic:
+            if reported >= SMALLEST_HITS:
+                continue
+            reported += 1
+            if reported == 1 and len(sem_hits) > 1:
+                what += "  [smallest of %d generated programs whose expansion differs from the reference]" % len(sem_hits)
+        elif fp in seen_fp:
+            continue
+        seen_fp.add(fp)
+        run.hit(fp, what, replay)
+    dist["eq_text"] = {"programs_with_equals_sign_in_a_text_leaf": sum(1 for c in cases if c.get("has_eq")),
+                       "deterministic_eq_family": sum(1 for c in cases if c.get("family") == "eq")}
     run.tie("C04(a) templ.parser.parse(serialise p) vs compile p (page + every template)", n_parse, dis_parse)
     run.tie("C04(b) Expander.expandTemplates vs reference eval p", len(cases), dis_eval)
     run.tie("C04(b') Expander.expandTemplates vs flatten model on compile p", len(cases), dis_impl)
@@ -498,17 +607,32 @@ def run(run, src):
         "rule": ("template programs: universes of 1..4 templates t1..t4 (template i may call only earlier ones), pages and bodies "
                  "generated from the grammar Text | Param(default?) | Call(positional/named args, distinct names) | #if | #ifeq | "
                  "#switch(fall-through groups, #default= or bare default) to nesting depth 4, leaves = words/numbers "
-                 "(numerically equal spellings included) with optional surrounding blanks/newlines; plus directed seeds; "
+                 "(numerically equal spellings included) with optional surrounding blanks/newlines; EQUALS SIGNS AS TEXT: with "
+                 "probability %.2f a text leaf contains '=' (9 spellings: blanks on either/both/no side, doubled, '!=', on its own "
+                 "line; at the start, inside, at the end, several) wherever the template language defines it to be text - condition "
+                 "and branches of #if, operands and branches of #ifeq, parameter defaults, the value of a named argument and of a "
+                 "#switch case/#default after their first '=', page and template text - and never where it is syntax (top level of a "
+                 "positional argument, #switch keys, bare #switch default); names of named arguments carry blanks on either side "
+                 "({{t| k = v }}) in 30%% of the cases; a deterministic family (eq_family) puts every spelling at every such "
+                 "position in one-construct programs; plus directed seeds and the corpus; of the programs whose expansion differs from "
+                 "the reference the %d smallest are reported; " % (EQ_P, SMALLEST_HITS) +
                  "distinct = distinct (page text, template texts); non-trivial = depth >= 2 and >= 3 different constructs"),
-        "trusted": ["hand-written Gallina model of evaluate.pyx/nodes.pyx (coq/C03/Model.v) and of the expected parse (compile); tied by the runs (a), (b), (b')",
+        "trusted": ["hand-written Gallina model of evaluate.pyx/nodes.pyx (coq/C03/Model.v) and of the expected parse (compile_r = compile with the '=' of argument texts cut out as eqmark; compile_r p = compile p is proved for programs without '='); tied by the runs (a), (b), (b')",
                     "the reference semantics eval (coq/C04/Model.v) is the reading of the property text: PHP trim set, last binding wins, first matching #switch case wins",
                     "templ.parser's tokeniser/brace matcher (not modelled: tie (a) only)"],
-        "assumptions": ["leaves are ASCII words/plain decimals (no exponent, underscore, inf/nan), no template-syntax characters, blanks are space/newline",
+        "assumptions": ["leaves are ASCII words/plain decimals (no exponent, underscore, inf/nan) and '=' / '!=' in text contexts, no other template-syntax characters, blanks are space/newline",
                         "argument names of one call are pairwise distinct; called templates exist; nesting stays below recursion_limit=100",
                         "template names are not magic words"],
         "distribution": {"templates_programs": dist},
         "coverage": {"c04_tpl_cases": len(cases)},
     }
+
+
+SMALLEST_HITS = 3
+
+
+def _used_templates(c):
+    return dict(c["db_text"])
 
 
 def _h(c):
